@@ -32,6 +32,7 @@ def main():
     mod = importlib.import_module(f'props.{prop.lower()}')
     if args.replay:
         return mod.replay(json.load(open(args.replay)))
+    common.install_watchdog(int(os.environ.get('VERIF_WATCHDOG_S', 2400 if args.tier == 'quick' else 6 * 3600)), prop)
     rep = common.Report(prop, args.tier, seed)
     try:
         import lazy_dataset
@@ -62,6 +63,7 @@ def main():
             rep.coverage['leanchecker'] = 'ok' if rc == 0 else out[-500:]
             if rc != 0:
                 raise common.Infra('leanchecker rejected ' + ' '.join(mods) + ': ' + out[-1500:])
+        common.install_gc_guard()
         mod.run(rep)
         rc = rep.finish(level='proof')
     except common.Infra as e:
